@@ -12,6 +12,18 @@ Check c05_session_independent_of_segmentation :
       = concat (map (expected_frame packet parse ver_of is_keepalive version verify pong) fs) ++ [Ret RDisconnected]
     /\ filter (is_transient packet) (session packet parse ver_of is_keepalive version m verify pong fuel buf (tr ++ [Eof]))
       = concat (map (transient_of packet) tr).
+Check c05_stream_ending_inside_a_frame :
+  forall (packet : Type) (parse : bytes -> res packet) (ver_of : packet -> option N)
+         (is_keepalive : packet -> bool) (version : N) (m : mode) (verify : bool) (pong : bytes),
+  (forall b, parse b <> Panic) ->
+  forall g k, wf_frame m g -> (k < length g)%nat ->
+  forall fuel fs tr buf,
+    Forall (wf_frame m) fs -> Forall ev_ok tr -> buf ++ data_of tr = concat fs ++ firstn k g ->
+    (length fs + length tr < fuel)%nat ->
+    filter (keep packet) (session packet parse ver_of is_keepalive version m verify pong fuel buf (tr ++ [Eof]))
+      = concat (map (expected_frame packet parse ver_of is_keepalive version verify pong) fs) ++ [Ret RDisconnected]
+    /\ filter (is_transient packet) (session packet parse ver_of is_keepalive version m verify pong fuel buf (tr ++ [Eof]))
+      = concat (map (transient_of packet) tr).
 Check c05_complete_frame_decodes :
   forall (packet : Type) (parse : bytes -> res packet) m f rest, wf_frame m f ->
   decode packet parse m (f ++ rest) =
@@ -37,6 +49,7 @@ Check c05_buffered_frame_is_served_without_more_input_async :
     let '(o, s', rs', ws', w) := poll_from packet parse ver_of is_keepalive version m verify pong Top s rs ws in
     rs' = rs /\ o <> PPending InRead.
 Print Assumptions c05_session_independent_of_segmentation.
+Print Assumptions c05_stream_ending_inside_a_frame.
 Print Assumptions c05_complete_frame_decodes.
 Print Assumptions c05_strict_prefix_needs_more.
 Print Assumptions c05_constants_tied.
